@@ -246,6 +246,14 @@ func runWatchLoop(
 			reconcile()
 		case <-debounce:
 			debounce = nil
+			// The file may have changed again while the debounce was pending, with the
+			// notification lost: the callback reads the file itself, so only evaluate
+			// content that still is what was observed; otherwise debounce the new content.
+			if current := fingerprint(configPath); current != observed {
+				observed = current
+				schedule()
+				continue
+			}
 			runCallback(observed)
 		case event, ok := <-events:
 			if !ok {
